@@ -155,8 +155,16 @@ def impl_run(item):
                 obs = ['valueerror']
         elif op == 'search':
             s = gs.IterativeTighteningSearch(iter(items))
+            rets = []
+            inner = s.tighten_bounds
+
+            def logged_tighten_bounds():
+                r = inner()
+                rets.append(bool(r))
+                return r
+            s.tighten_bounds = logged_tighten_bounds     # search() calls self.tighten_bounds()
             r = s.search()
-            obs = ['search', None if r is None else r.idx, _range_out(s.bounds())]
+            obs = ['search', None if r is None else r.idx, _range_out(s.bounds()), rets]
         else:
             raise ValueError(op)
     except _Timeout:
@@ -207,7 +215,7 @@ def g_obs(o):
     if k == 'ranges':
         return f'(ORanges {g_list(o[1], g_range)})'
     if k == 'search':
-        return f'(OSearch {g_onat(o[1])} {g_range(o[2])})'
+        return f'(OSearch {g_onat(o[1])} {g_range(o[2])} {g_list(o[3], g_bool)})'
     if k == 'valueerror':
         return 'OValueError'
     return 'OFail'
@@ -346,14 +354,16 @@ def gen_cases(tier, rng):
     chains = strict_chains(0, 3)                       # 48 schedules
     singles = [[c] for c in chains]
     pairs = [[a, b] for a in chains for b in chains]
+    quick = tier != 'thorough'
     for op in main_ops:
         cases.append({'op': op, 'items': [], 'src': 'exhaustive'})
-        for its in singles + pairs:
+        some_pairs = rng.sample(pairs, 600) if quick and op in ('min', 'sort') else pairs
+        for its in singles + some_pairs:
             cases.append({'op': op, 'items': its, 'src': 'exhaustive'})
     for op in ('lt', 'le'):
-        for its in pairs:
+        for its in (rng.sample(pairs, 600) if quick else pairs):
             cases.append({'op': op, 'items': its, 'src': 'exhaustive'})
-    if tier == 'thorough':
+    if not quick:
         for op in main_ops:
             for a in chains:
                 for b in chains:
@@ -361,9 +371,9 @@ def gen_cases(tier, rng):
                         cases.append({'op': op, 'items': [a, b, c], 'src': 'exhaustive'})
     else:
         for op in main_ops:
-            for _ in range(1500):
+            for _ in range(600):
                 cases.append({'op': op, 'items': [rng.choice(chains) for _ in range(3)], 'src': 'exhaustive-sample'})
-    n_rand = 700 if tier == 'quick' else 6000
+    n_rand = 500 if quick else 6000
     for op in main_ops:
         for k in range(n_rand):
             n = rng.choice([1, 2, 2, 3, 3, 4, 5, 6, 8]) if k % 10 else rng.randint(9, 14)
@@ -518,8 +528,9 @@ def check(tier, seed):
         run.cov['max_schedule_length'] = max((len(s) for c, _ in out['keep'] for s in c['items']), default=0)
         run.cov['exhaustive'] = ('all sets of <=3 schedules over the 48 strictly shrinking schedules inside [0,3]'
                                  if tier == 'thorough' else
-                                 'all sets of <=2 schedules over the 48 strictly shrinking schedules inside [0,3]; '
-                                 '1500 sampled 3-item sets per operation')
+                                 'search, make_distinct: all sets of <=2 schedules over the 48 strictly shrinking schedules '
+                                 'inside [0,3]; other operations: all single schedules and 600 sampled pairs; 600 sampled '
+                                 '3-item sets per operation')
         run.cov['rule'] = ('operations lt, le, min_bounded, sort, make_distinct, IterativeTighteningSearch.search()+bounds() on '
                            'synthetic schedule-driven items: exhaustive small scope over [0,3] plus random sets (1-14 items; ranges '
                            'up to [0,1000]; ties, identical intervals/schedules, already-definitive items, one-sided slow '
